@@ -21,7 +21,7 @@ impl fmt::Display for FullDate {
     fn fmt(&self, f: &mut fmt::Formatter) -> fmt::Result {
         write!(
             f,
-            "{}-{:0>2}-{:0>2}",
+            "{:0>4}-{:0>2}-{:0>2}",
             self.0.year(),
             <u8>::from(self.0.month()),
             self.0.day()
@@ -41,6 +41,10 @@ impl FromStr for FullDate {
     type Err = Error;
 
     fn from_str(s: &str) -> Result<Self, Error> {
+        // RFC 3339 full-date: a four-digit year without a sign.
+        if !s.starts_with(|c: char| c.is_ascii_digit()) {
+            return Err(anyhow::anyhow!("full-date must start with a four-digit year"));
+        }
         Ok(FullDate(Date::parse(s, FORMAT)?))
     }
 }
